@@ -5056,3 +5056,591 @@ func extraUnifiedPurge(c *Ctx, r *Report, rule string) {
 		Old: "	r.detachEndpointLocked(endpointURL, func(id string) bool {\n		_, stillListed := modelGroups[id]\n		return !stillListed\n	})\n",
 		New: "	if len(modelGroups) == 0 {\n		r.detachEndpointLocked(endpointURL, func(id string) bool { return true })\n	}\n"})
 }
+
+// C01-R13: alias of C16-R10 (path placed under the base path where so configured is a clause of C01 as well)
+func init() {
+	registerExtra("C01", func(c *Ctx, r *Report) {
+		r.WithAlias(map[string]string{"C16-R10": "C01-R13"}, func() { checkC16(c, r) })
+	})
+}
+
+// ---------- C01-R14 / C14-R11: the passthrough body is the client's bytes as read ----------
+func init() {
+	registerExtra("C01", func(c *Ctx, r *Report) { extraPassthroughBytesVerbatim(c, r, "C01-R14") })
+	registerExtra("C14", func(c *Ctx, r *Report) { extraPassthroughBytesVerbatim(c, r, "C14-R11") })
+}
+
+func extraPassthroughBytesVerbatim(c *Ctx, r *Report, rule string) {
+	r.Rule(rule, "the byte slice handed to PreparePassthrough (it becomes the upstream body unchanged, C14-R2) is the slice io.ReadAll returned for the client's body, followed through parameters to every caller and through phis: no call result (TrimSpace, re-marshal, Replace, compaction) and no re-slice stands in between — passthrough promises the body byte for byte, trailing newline and leading whitespace included", 1)
+	callers := map[*ssa.Function][]*ssa.CallCommon{}
+	for _, g := range c.Funcs {
+		eachInstr(g, func(in ssa.Instruction) {
+			if cc := getCall(in); cc != nil {
+				if sc := cc.StaticCallee(); sc != nil {
+					callers[sc] = append(callers[sc], cc)
+				}
+			}
+		})
+	}
+	var asRead func(v ssa.Value, depth int, seen map[ssa.Value]bool) (bool, string)
+	asRead = func(v ssa.Value, depth int, seen map[ssa.Value]bool) (bool, string) {
+		if v == nil || depth == 0 {
+			return false, "not followed further"
+		}
+		if seen[v] {
+			return true, ""
+		}
+		seen[v] = true
+		switch x := v.(type) {
+		case *ssa.Extract:
+			if call, ok := x.Tuple.(*ssa.Call); ok && x.Index == 0 {
+				ci := describeCall(&call.Call)
+				if (ci.Pkg == "io" || ci.Pkg == "io/ioutil") && ci.Name == "ReadAll" {
+					return true, ""
+				}
+				return false, "the result of " + ci.String()
+			}
+		case *ssa.Phi:
+			for _, e := range x.Edges {
+				if ok, w := asRead(e, depth-1, seen); !ok {
+					return false, w
+				}
+			}
+			return true, ""
+		case *ssa.UnOp:
+			if a, ok := x.X.(*ssa.Alloc); ok && x.Op == token.MUL {
+				st := cellStores(a)
+				for _, s := range st {
+					if ok, w := asRead(s, depth-1, seen); !ok {
+						return false, w
+					}
+				}
+				return len(st) > 0, "variable never assigned"
+			}
+			if _, ok := x.X.(*ssa.FreeVar); ok {
+				if o := resolveOrigin(c, x, 6); o != nil && o != ssa.Value(x) {
+					return asRead(o, depth-1, seen)
+				}
+			}
+		case *ssa.FreeVar:
+			if o := resolveOrigin(c, x, 6); o != nil && o != ssa.Value(x) {
+				return asRead(o, depth-1, seen)
+			}
+		case *ssa.Parameter:
+			f := x.Parent()
+			for i, p := range f.Params {
+				if p != x {
+					continue
+				}
+				cs := callers[f]
+				if len(cs) == 0 {
+					return false, "a parameter of a function without static callers"
+				}
+				for _, cc := range cs {
+					if i >= len(cc.Args) {
+						return false, "parameter not matched"
+					}
+					if ok, w := asRead(cc.Args[i], depth-1, seen); !ok {
+						return false, w
+					}
+				}
+				return true, ""
+			}
+		case *ssa.Call:
+			return false, "the result of " + describeCall(&x.Call).String()
+		case *ssa.Slice:
+			return false, "a re-slice of the buffered body"
+		}
+		return false, "not the slice returned by io.ReadAll"
+	}
+	n := 0
+	for _, f := range c.Funcs {
+		if !c.inRepo(f) || strings.Contains(fnPkgPath(f), "/adapter/translator") {
+			continue
+		}
+		eachInstr(f, func(in ssa.Instruction) {
+			cc := getCall(in)
+			if cc == nil {
+				return
+			}
+			name := ""
+			if cc.IsInvoke() {
+				name = cc.Method.Name()
+			} else if sc := cc.StaticCallee(); sc != nil {
+				name = sc.Name()
+			}
+			if name != "PreparePassthrough" || len(cc.Args) == 0 {
+				return
+			}
+			var body ssa.Value
+			for _, a := range cc.Args {
+				if byteSeq(a.Type()) {
+					body = a
+					break
+				}
+			}
+			if body == nil {
+				return
+			}
+			n++
+			key := fname(f) + ":passthrough-body-as-read"
+			if ok, w := asRead(body, 8, map[ssa.Value]bool{}); ok {
+				r.OK(rule, key, in.Pos(), "the body given to PreparePassthrough is the io.ReadAll result, untouched")
+			} else {
+				r.Bad(rule, key, in.Pos(), "the body given to PreparePassthrough is "+w+": the native endpoint does not receive the client's bytes as sent")
+			}
+		})
+	}
+	if n == 0 {
+		r.Undecided(rule, "PreparePassthrough-call", token.NoPos, "no call of PreparePassthrough outside the translator packages")
+	}
+	if rule == "C01-R14" {
+		addMutants(Mutant{Prop: "C01", Name: "passthrough-body-trimmed", File: "internal/app/handlers/handler_translation.go", Rule: rule,
+			Old: "		modelName, err := translator.ExtractModelName(bodyBytes)\n", New: "		bodyBytes = bytes.TrimRight(bodyBytes, \"\\r\\n\")\n		modelName, err := translator.ExtractModelName(bodyBytes)\n"})
+	} else {
+		addMutants(Mutant{Prop: "C14", Name: "passthrough-body-trimmed", File: "internal/app/handlers/handler_translation.go", Rule: rule,
+			Old: "		modelName, err := translator.ExtractModelName(bodyBytes)\n", New: "		bodyBytes = bytes.TrimRight(bodyBytes, \"\\r\\n\")\n		modelName, err := translator.ExtractModelName(bodyBytes)\n"})
+	}
+}
+
+// ---------- C02-R12: what is relayed is the part of the buffer the read filled ----------
+func init() { registerExtra("C02", extraC02RelayReadCount) }
+
+func extraC02RelayReadCount(c *Ctx, r *Report) {
+	r.Rule("C02-R12", "in the proxy engines every ResponseWriter.Write of relayed data writes buf[:n] where n is the byte count a Read / io.ReadFull into that buffer returned (followed through parameters to all callers, through phis and through a struct field that only ever receives such counts): a slice sized by anything else — the announced Content-Length, len(buf) — relays bytes the attempt's backend never sent, i.e. what an earlier response left in the pooled buffer", 2)
+	callers := map[*ssa.Function][]*ssa.CallCommon{}
+	for _, g := range c.Funcs {
+		eachInstr(g, func(in ssa.Instruction) {
+			if cc := getCall(in); cc != nil {
+				if sc := cc.StaticCallee(); sc != nil {
+					callers[sc] = append(callers[sc], cc)
+				}
+			}
+		})
+	}
+	isReadCall := func(v ssa.Value) bool {
+		call, ok := v.(*ssa.Call)
+		if !ok {
+			return false
+		}
+		name := ""
+		if call.Call.IsInvoke() {
+			name = call.Call.Method.Name()
+		} else {
+			ci := describeCall(&call.Call)
+			if ci.Pkg == "io" || ci.Pkg == "bufio" {
+				name = ci.Name
+			}
+		}
+		return name == "Read" || name == "ReadFull" || name == "ReadAtLeast"
+	}
+	var readCount func(v ssa.Value, depth int, seen map[ssa.Value]bool) bool
+	readCount = func(v ssa.Value, depth int, seen map[ssa.Value]bool) bool {
+		if v == nil || depth == 0 {
+			return false
+		}
+		if seen[v] {
+			return true
+		}
+		seen[v] = true
+		switch x := v.(type) {
+		case *ssa.Extract:
+			return x.Index == 0 && isReadCall(x.Tuple)
+		case *ssa.Phi:
+			for _, e := range x.Edges {
+				if !readCount(e, depth-1, seen) {
+					return false
+				}
+			}
+			return len(x.Edges) > 0
+		case *ssa.Convert:
+			return readCount(x.X, depth-1, seen)
+		case *ssa.ChangeType:
+			return readCount(x.X, depth-1, seen)
+		case *ssa.UnOp:
+			if x.Op != token.MUL {
+				return false
+			}
+			if fa, ok := x.X.(*ssa.FieldAddr); ok {
+				_, fld, _ := fieldOf(fa)
+				n := 0
+				for _, g := range c.Funcs {
+					if !c.inRepo(g) {
+						continue
+					}
+					bad := false
+					eachInstr(g, func(in ssa.Instruction) {
+						st, ok := in.(*ssa.Store)
+						if !ok {
+							return
+						}
+						fa2, ok := st.Addr.(*ssa.FieldAddr)
+						if !ok {
+							return
+						}
+						if _, f2, _ := fieldOf(fa2); f2 != fld {
+							return
+						}
+						n++
+						if !readCount(st.Val, depth-1, seen) {
+							bad = true
+						}
+					})
+					if bad {
+						return false
+					}
+				}
+				return n > 0
+			}
+			if a, ok := x.X.(*ssa.Alloc); ok {
+				st := cellStores(a)
+				for _, s := range st {
+					if !readCount(s, depth-1, seen) {
+						return false
+					}
+				}
+				return len(st) > 0
+			}
+		case *ssa.Field:
+			// value-struct field: the struct is a load of a pointer or a received value — decide by the field's stores
+			_, fld, _ := fieldOf(x)
+			n := 0
+			for _, g := range c.Funcs {
+				if !c.inRepo(g) {
+					continue
+				}
+				bad := false
+				eachInstr(g, func(in ssa.Instruction) {
+					st, ok := in.(*ssa.Store)
+					if !ok {
+						return
+					}
+					fa2, ok := st.Addr.(*ssa.FieldAddr)
+					if !ok {
+						return
+					}
+					if _, f2, _ := fieldOf(fa2); f2 != fld {
+						return
+					}
+					n++
+					if !readCount(st.Val, depth-1, seen) {
+						bad = true
+					}
+				})
+				if bad {
+					return false
+				}
+			}
+			return n > 0
+		case *ssa.Parameter:
+			f := x.Parent()
+			for i, p := range f.Params {
+				if p != x {
+					continue
+				}
+				cs := callers[f]
+				if len(cs) == 0 {
+					return false
+				}
+				for _, cc := range cs {
+					if i >= len(cc.Args) || !readCount(cc.Args[i], depth-1, seen) {
+						return false
+					}
+				}
+				return true
+			}
+		}
+		return false
+	}
+	// relayedOK: the written value is buf[:n] with n a read count (through parameters)
+	var relayedOK func(v ssa.Value, depth int) (bool, string, bool)
+	relayedOK = func(v ssa.Value, depth int) (ok bool, why string, applicable bool) {
+		if v == nil || depth == 0 {
+			return false, "not followed further", true
+		}
+		switch x := v.(type) {
+		case *ssa.Slice:
+			if _, isArr := x.X.Type().Underlying().(*types.Pointer); isArr {
+				return true, "", false // a local array (not a read buffer handed down)
+			}
+			if x.High == nil {
+				return false, "the buffer is written up to its full length", true
+			}
+			if readCount(x.High, 6, map[ssa.Value]bool{}) {
+				return true, "", true
+			}
+			return false, "the slice's upper bound is not the count returned by the read into the buffer", true
+		case *ssa.Phi:
+			any := false
+			for _, e := range x.Edges {
+				o, w, a := relayedOK(e, depth-1)
+				if a {
+					any = true
+					if !o {
+						return false, w, true
+					}
+				}
+			}
+			return true, "", any
+		case *ssa.Parameter:
+			f := x.Parent()
+			for i, p := range f.Params {
+				if p != x {
+					continue
+				}
+				cs := callers[f]
+				if len(cs) == 0 {
+					return true, "", false
+				}
+				any := false
+				for _, cc := range cs {
+					if i >= len(cc.Args) {
+						continue
+					}
+					o, w, a := relayedOK(cc.Args[i], depth-1)
+					if a {
+						any = true
+						if !o {
+							return false, w, true
+						}
+					}
+				}
+				return true, "", any
+			}
+		}
+		return true, "", false // built here (error text, marshalled JSON): not relayed buffer content
+	}
+	n := 0
+	for _, f := range c.Funcs {
+		pp := fnPkgPath(f)
+		if !strings.Contains(pp, "/adapter/proxy/olla") && !strings.Contains(pp, "/adapter/proxy/sherpa") {
+			continue
+		}
+		eachInstr(f, func(in ssa.Instruction) {
+			cc := getCall(in)
+			if cc == nil || !cc.IsInvoke() || cc.Method.Name() != "Write" || len(cc.Args) != 1 || !isNamed(cc.Value.Type(), "net/http", "ResponseWriter") {
+				return
+			}
+			ok, why, applicable := relayedOK(cc.Args[0], 4)
+			if !applicable {
+				return
+			}
+			n++
+			key := fname(f) + ":relayed-slice"
+			if ok {
+				r.OK("C02-R12", key, in.Pos(), "the client is sent buf[:n], n being the count the read returned")
+			} else {
+				r.Bad("C02-R12", key, in.Pos(), "relayed data is not cut to what the read delivered ("+why+"): after a short read the client receives stale bytes of an earlier response from the pooled buffer, inside a complete-looking 200")
+			}
+		})
+	}
+	if n == 0 {
+		r.Undecided("C02-R12", "relay-writes", token.NoPos, "no ResponseWriter.Write of a read buffer found in the proxy engines")
+	}
+	addMutants(Mutant{Prop: "C02", Name: "relay-whole-buffer", File: "internal/adapter/proxy/olla/streaming_helpers.go", Rule: "C02-R12",
+		Old: "			written, writeErr := writeStreamData(w, buffer[:n], isStreaming, rc)", New: "			written, writeErr := writeStreamData(w, buffer[:max(n, min(len(buffer), int(resp.ContentLength)))], isStreaming, rc)"})
+}
+
+// ---------- C02-R13: a handler dispatches a request to the proxy once ----------
+func init() { registerExtra("C02", extraC02SingleDispatch) }
+
+func extraC02SingleDispatch(c *Ctx, r *Report) {
+	r.Rule("C02-R13", "in the handlers no dispatch to the proxy service (an invoke of ProxyService.ProxyRequest…, directly or in a handler function that performs one) can be followed by another dispatch on the same path — the only component that knows whether part of a response has been delivered is the retry loop's writer wrapper (C02-R1); a handler-level second dispatch guarded by a header test appends a second backend's response to a started one. Exempt: a dispatch behind the false result of a boolean helper whose false returns perform no dispatch (passthrough-or-translate)", 3)
+	isDispatch := func(in ssa.Instruction) bool {
+		cc := getCall(in)
+		return cc != nil && cc.IsInvoke() && strings.HasPrefix(cc.Method.Name(), "ProxyRequest")
+	}
+	memo := map[*ssa.Function]int{}
+	var may func(f *ssa.Function, depth int) bool
+	may = func(f *ssa.Function, depth int) bool {
+		if f == nil || f.Blocks == nil || depth == 0 {
+			return false
+		}
+		if v, ok := memo[f]; ok {
+			return v == 1
+		}
+		memo[f] = 0
+		hit := false
+		// f's own body; closures count only where f itself runs them (called, deferred or started with go) — a
+		// function that merely builds and returns a handler closure dispatches nothing
+		eachInstr(f, func(in ssa.Instruction) {
+			if isDispatch(in) {
+				hit = true
+			}
+			if cc := getCall(in); cc != nil {
+				if sc := cc.StaticCallee(); sc != nil && strings.HasSuffix(fnPkgPath(sc), pkgHandlers) && may(sc, depth-1) {
+					hit = true
+				}
+				if mc, ok := cc.Value.(*ssa.MakeClosure); ok {
+					if g, ok := mc.Fn.(*ssa.Function); ok && may(g, depth-1) {
+						hit = true
+					}
+				}
+			}
+		})
+		if hit {
+			memo[f] = 1
+		}
+		return hit
+	}
+	pc := newPathCounter(c, func(in ssa.Instruction) int {
+		if isDispatch(in) {
+			return 0
+		}
+		return -1
+	})
+	falseReturnsDispatchFree := func(f *ssa.Function) bool {
+		ok := true
+		for ret, s := range pc.perReturn(f, 0) {
+			if len(ret.Results) == 0 {
+				continue
+			}
+			k, isK := ret.Results[0].(*ssa.Const)
+			if !isK || k.Value == nil || k.Value.String() != "false" {
+				continue
+			}
+			for _, v := range vsVectors(s) {
+				if v[0] > 0 {
+					ok = false
+				}
+			}
+		}
+		return ok
+	}
+	n := 0
+	for _, f := range c.Funcs {
+		if !strings.HasSuffix(fnPkgPath(f), pkgHandlers) {
+			continue
+		}
+		var sites []ssa.Instruction
+		eachInstr(f, func(in ssa.Instruction) {
+			if isDispatch(in) {
+				sites = append(sites, in)
+				return
+			}
+			if cc := getCall(in); cc != nil {
+				if sc := cc.StaticCallee(); sc != nil && strings.HasSuffix(fnPkgPath(sc), pkgHandlers) && may(sc, 5) {
+					sites = append(sites, in)
+				}
+				if mc, ok := cc.Value.(*ssa.MakeClosure); ok {
+					if g, ok := mc.Fn.(*ssa.Function); ok && may(g, 5) {
+						sites = append(sites, in)
+					}
+				}
+			}
+		})
+		if len(sites) == 0 {
+			continue
+		}
+		n++
+		key := fname(f) + ":single-dispatch"
+		bad := ""
+		for _, d1 := range sites {
+			for _, d2 := range sites {
+				if !reachAvoiding(d1, d2, nil) {
+					continue
+				}
+				// exemption: d2 lies behind d1's false result and d1's callee dispatches on none of its false returns
+				exempt := false
+				if v1, ok := d1.(*ssa.Call); ok && d1 != d2 {
+					for _, cf := range normFacts(condFacts(d2.Block())) {
+						if cf.Cond == ssa.Value(v1) && !cf.True {
+							if sc := v1.Call.StaticCallee(); sc != nil && falseReturnsDispatchFree(sc) {
+								exempt = true
+							}
+						}
+					}
+				}
+				if !exempt {
+					bad = fmt.Sprintf("the dispatch at %s can be followed by the dispatch at %s", c.Pos(d1.Pos()), c.Pos(d2.Pos()))
+				}
+			}
+		}
+		if bad == "" {
+			r.OK("C02-R13", key, sites[0].Pos(), fmt.Sprintf("%d dispatch site(s), no path runs through two", len(sites)))
+		} else {
+			r.Bad("C02-R13", key, sites[0].Pos(), bad+": a second dispatch on the same client writer can append another backend's response to one that has started")
+		}
+	}
+	if n == 0 {
+		r.Undecided("C02-R13", "handler-dispatch", token.NoPos, "no dispatch to the proxy service found in the handlers")
+	}
+	addMutants(Mutant{Prop: "C02", Name: "handler-redispatch-on-error", File: "internal/app/handlers/handler_proxy.go", Rule: "C02-R13",
+		Old: "	err = a.executeProxyRequest(ctx, w, r, endpoints, pr)\n\n	a.logRequestResult(pr, err)\n\n	if err != nil {\n		a.handleProxyError(w, err)\n	}\n}\n\nfunc (a *Application) initializeProxyRequest",
+		New: "	err = a.executeProxyRequest(ctx, w, r, endpoints, pr)\n	if err != nil && w.Header().Get(constants.HeaderContentType) == \"\" {\n		err = a.executeProxyRequest(ctx, w, r, endpoints, pr)\n	}\n\n	a.logRequestResult(pr, err)\n\n	if err != nil {\n		a.handleProxyError(w, err)\n	}\n}\n\nfunc (a *Application) initializeProxyRequest"})
+}
+
+// ---------- C03-R16 / C07-R13: a status mark is written whatever the state of the caller's context ----------
+func init() {
+	registerExtra("C03", func(c *Ctx, r *Report) { extraStatusWriteIgnoresCtx(c, r, "C03-R16") })
+	registerExtra("C07", func(c *Ctx, r *Report) { extraStatusWriteIgnoresCtx(c, r, "C07-R13") })
+}
+
+func extraStatusWriteIgnoresCtx(c *Ctx, r *Report, rule string) {
+	r.Rule(rule, "on the path that writes an endpoint's status (every UpdateEndpointStatus / UpdateEndpoint method of the repo, down to the repository's map) no return is conditional on the state of the caller's context (ctx.Err(), <-ctx.Done()): both writers — the health checker after a probe that timed out, the retry handler after a failed attempt — call it with the very context under which the failure was observed, which is typically expired by then, and only log the error; a write that refuses an expired context drops exactly the marks that take dead endpoints out of rotation", 3)
+	isCtxState := func(v ssa.Value) bool {
+		found := false
+		var walk func(v ssa.Value, d int)
+		walk = func(v ssa.Value, d int) {
+			if v == nil || d == 0 || found {
+				return
+			}
+			if call, ok := v.(*ssa.Call); ok && call.Call.IsInvoke() && isNamed(call.Call.Value.Type(), "context", "Context") && (call.Call.Method.Name() == "Err" || call.Call.Method.Name() == "Done") {
+				found = true
+				return
+			}
+			if in, ok := v.(ssa.Instruction); ok {
+				for _, op := range in.Operands(nil) {
+					if *op != nil {
+						walk(*op, d-1)
+					}
+				}
+			}
+		}
+		walk(v, 5)
+		return found
+	}
+	n := 0
+	for _, f := range c.Funcs {
+		if !c.inRepo(f) || f.Parent() != nil || f.Signature.Recv() == nil {
+			continue
+		}
+		if f.Name() != "UpdateEndpointStatus" && f.Name() != "UpdateEndpoint" {
+			continue
+		}
+		n++
+		key := fname(f) + ":write-ignores-context-state"
+		var bad token.Pos
+		for _, g := range withAnon(f) {
+			for _, ret := range returnsOf(g) {
+				for _, cf := range normFacts(condFacts(ret.Block())) {
+					if isCtxState(cf.Cond) {
+						if p := retPos(g, ret); !bad.IsValid() || p < bad {
+							bad = p
+						}
+					}
+				}
+			}
+			// select { case <-ctx.Done(): return … }
+			eachInstr(g, func(in ssa.Instruction) {
+				if sel, ok := in.(*ssa.Select); ok {
+					for _, st := range sel.States {
+						if isCtxState(st.Chan) {
+							bad = in.Pos()
+						}
+					}
+				}
+			})
+		}
+		if bad.IsValid() {
+			r.Bad(rule, key, bad, "the status write gives up when the caller's context is already done: the offline mark of a probe that timed out, or of an attempt that failed as the request's deadline ran out, is silently dropped and the endpoint keeps receiving traffic")
+		} else {
+			r.OK(rule, key, f.Pos(), "no exit of the status write depends on the caller's context")
+		}
+	}
+	if n == 0 {
+		r.Undecided(rule, "status-write-path", token.NoPos, "no UpdateEndpointStatus / UpdateEndpoint method found")
+	}
+	addMutants(Mutant{Prop: strings.Split(rule, "-")[0], Name: "status-write-refuses-expired-context", File: "internal/adapter/discovery/repository.go", Rule: rule,
+		Old: "func (r *StaticEndpointRepository) UpdateEndpoint(ctx context.Context, endpoint *domain.Endpoint) error {\n", New: "func (r *StaticEndpointRepository) UpdateEndpoint(ctx context.Context, endpoint *domain.Endpoint) error {\n	if ctx.Err() != nil {\n		return ctx.Err()\n	}\n"})
+}
